@@ -325,7 +325,7 @@ def tdm_group():
             text = ccsds.dumps(ms, fmt=fmt)
             back = ccsds.loads(text)
             other = ccsds.loads(ccsds.dumps(ms, fmt="xml" if fmt == "kvn" else "kvn"))
-            again = ccsds.dumps(_flatten(back), fmt=fmt)
+            again = ccsds.dumps(back, fmt=fmt)          # what loads() returned, as it is (a list of sets for several segments)
         except Exception as e:  # noqa
             return cfg, f"{type(e).__name__}: {e}"
         errs = _cmp_ms(ms, _flatten(back), TOL, "tdm") + [f"kvn/xml: {e}" for e in _cmp_ms(_flatten(back), _flatten(other), TOL, "tdm")]
